@@ -1,7 +1,7 @@
 /-
 Bridge lemmas: the definitions GENERATED from the Python source (`Gen/Src.lean`, namespace `PrecondVerif.Gen`,
 rewritten by `harness/py2lean.py` on every check run) equal the hand-written models of `Model/Shapes.lean`
-on the whole stated domain.  Core Lean only.
+(and `Model/Graft.lean` `dsSkip`/`tfMaskSkipped`, `Model/Devices.lean` `toPad`) on the whole stated domain.  Core Lean only.
 
 Domain.  The generated definitions work on Python ints (`Int`); the models on `Nat`.  Every bridge is stated
 for ALL inputs of the form `ints l` (a list of naturals seen as ints, i.e. any `param.shape`) and naturals cast to
@@ -16,6 +16,8 @@ while any change of behaviour makes a step lemma false and this file stops build
 -/
 import PrecondVerif.Gen.Src
 import PrecondVerif.Lemmas.Shapes
+import PrecondVerif.Model.Graft
+import PrecondVerif.Model.Devices
 
 namespace PrecondVerif.GenBridge
 open PrecondVerif
@@ -474,5 +476,198 @@ theorem toPad_minimal (n D : Nat) (hD : 0 < D) (r : Int) (hr : 0 ≤ r) (hdvd : 
   have h2 : 0 ≤ (D : Int) * (r / (D : Int)) := Int.mul_nonneg (by omega) (Int.ediv_nonneg hr (by omega))
   rw [Int.emod_def]
   omega
+
+/-! ### Preconditioner: _preconditioner_shape, shapes_for_preconditioners, exponent_for_preconditioner -/
+
+theorem preconditionerShape_bridge (c : Int) (d : Nat) :
+    Gen.preconditionerShape c (d : Int) = [(d : Int), ((Shapes.precondDim c.natAbs d : Nat) : Int)] := by
+  unfold Gen.preconditionerShape
+  rw [precondDim_bridge]
+  by_cases h : c = 0
+  · simp [h, Shapes.precondDim]
+  · simp [h]
+
+theorem py_product (ss : List (List Nat)) :
+    Gen.Py.product (ss.map ints) = (Shapes.cartesian ss).map ints := by
+  induction ss with
+  | nil => rfl
+  | cons l ls ih =>
+    simp only [List.map_cons, Gen.Py.product, Shapes.cartesian, ih]
+    simp only [ints, List.flatMap_map, List.map_flatMap, List.map_map]
+    rfl
+
+theorem cartesian_length (ss : List (List Nat)) : ∀ t ∈ Shapes.cartesian ss, t.length = ss.length := by
+  induction ss with
+  | nil => simp [Shapes.cartesian]
+  | cons l ls ih =>
+    intro t ht
+    simp only [Shapes.cartesian, List.mem_flatMap, List.mem_map] at ht
+    obtain ⟨x, _, u, hu, rfl⟩ := ht
+    simp [ih u hu]
+
+theorem sliceTo_last (t : List Nat) : Gen.Py.sliceTo (ints t) (-1) = ints (t.take (t.length - 1)) := by
+  unfold Gen.Py.sliceTo
+  simp [ints, List.map_take]
+
+theorem sliceFrom_last (t : List Nat) : Gen.Py.sliceFrom (ints t) (-1) = ints (t.drop (t.length - 1)) := by
+  unfold Gen.Py.sliceFrom
+  simp [ints, List.map_drop]
+
+/-- one `[dim, precond dim]` entry per preconditioned dimension of a block -/
+def shapeEntries (pt : Shapes.PType) (c : Int) (t : List Nat) : List (List Int) :=
+  (Shapes.blockPrecondDims pt t).map fun (d : Nat) => [(d : Int), ((Shapes.precondDim c.natAbs d : Nat) : Int)]
+
+theorem map_precShape (c : Int) (l : List Nat) :
+    List.map (fun (py_m : Int) => Gen.preconditionerShape c py_m) (ints l) =
+      l.map fun (d : Nat) => [(d : Int), ((Shapes.precondDim c.natAbs d : Nat) : Int)] := by
+  simp only [ints, List.map_map]
+  apply List.map_congr_left
+  intro d _
+  exact preconditionerShape_bridge c d
+
+theorem shapes_step (pt : Shapes.PType) (c : Int) (t : List Nat) (acc : List (List Int)) :
+    Gen.shapesForPreconditioners_loop1 (ptypeCode pt) c (t.length : Int) acc (ints t) = acc ++ shapeEntries pt c t := by
+  simp only [Gen.shapesForPreconditioners_loop1, shapeEntries, Shapes.blockPrecondDims, sliceTo_last, sliceFrom_last,
+    map_precShape]
+  have hr : ((t.length : Int) ≤ 1) ↔ t.length ≤ 1 := by omega
+  cases pt <;> simp only [ptypeCode] <;> by_cases h : t.length ≤ 1 <;> simp [h, hr]
+
+theorem shapes_loop (pt : Shapes.PType) (c : Int) (r : Nat) (L : List (List Nat)) (hL : ∀ t ∈ L, t.length = r)
+    (acc : List (List Int)) :
+    List.foldl (Gen.shapesForPreconditioners_loop1 (ptypeCode pt) c (r : Int)) acc (L.map ints) =
+      acc ++ L.flatMap (shapeEntries pt c) := by
+  induction L generalizing acc with
+  | nil => simp
+  | cons t ts ih =>
+    simp only [List.map_cons, List.foldl_cons, List.flatMap_cons]
+    have ht : t.length = r := hL t (by simp)
+    rw [← ht, shapes_step, ht, ih (fun u hu => hL u (by simp [hu]))]
+    simp
+
+theorem shapesForPreconditioners_bridge (ss : List (List Nat)) (pt : Shapes.PType) (c : Int) :
+    Gen.shapesForPreconditioners (ss.map ints) (ptypeCode pt) c =
+      ((Shapes.cartesian ss).flatMap fun t => (Shapes.blockPrecondDims pt t).map fun d => (d, Shapes.precondDim c.natAbs d)).map
+        (fun p => [(p.1 : Int), (p.2 : Int)]) := by
+  unfold Gen.shapesForPreconditioners Gen.Py.len
+  simp only [py_product, List.length_map, Int.ofNat_eq_natCast]
+  rw [shapes_loop pt c ss.length _ (cartesian_length ss)]
+  simp only [List.nil_append, List.map_flatMap, List.map_map]
+  rfl
+
+theorem exponent_bridge (ss : List (List Int)) (pt : Shapes.PType) :
+    Gen.exponentForPreconditioner ss (ptypeCode pt) = some ((Shapes.exponentForPreconditioner pt ss.length : Nat) : Int) := by
+  unfold Gen.exponentForPreconditioner
+  rw [shouldPreconditionDims_bridge]
+  simp [Gen.Py.count, Shapes.exponentForPreconditioner, Shapes.numPreconditioned]
+
+
+/-! ### _preconds_for_grad, skip predicates (C05), sm3 expanded shape (C12), to_pad vs Model/Devices (C13) -/
+
+/-- `S` padded with `None` on the axes that have no preconditioner -/
+def padSlots (pt : Shapes.PType) (rank : Nat) (S : List (Option Int)) : List (Option Int) :=
+  match pt with
+  | .all => S
+  | .input => if rank ≤ 1 then S else S ++ [none]
+  | .output => if rank ≤ 1 then S else List.replicate (rank - 1) none ++ S
+
+/-- `_preconds_for_grad` as translated: with `S = preconditioners[start:end]` of the right length (one entry per
+preconditioned axis) the `assert` holds and the result pads `S` with `None` on the unpreconditioned axes. -/
+theorem precondsForGrad_shape (P : List (Option Int)) (pt : Shapes.PType) (rank : Nat) (s e : Int)
+    (hlen : (Gen.Py.slice P s e).length = Shapes.numPreconditioned pt rank) :
+    Gen.precondsForGrad P (ptypeCode pt) (rank : Int) s e = some (padSlots pt rank (Gen.Py.slice P s e)) := by
+  unfold Gen.precondsForGrad Gen.Py.len padSlots
+  revert hlen
+  generalize Gen.Py.slice P s e = S
+  intro hlen
+  have hr : ((rank : Int) ≤ 1) ↔ rank ≤ 1 := by omega
+  unfold Shapes.numPreconditioned Shapes.shouldPreconditionDims at hlen
+  cases pt <;> simp only [ptypeCode] <;> by_cases h : rank ≤ 1
+  · simp [h, hr] at hlen ⊢; omega
+  · simp [h, hr] at hlen ⊢; omega
+  · simp [h, hr] at hlen ⊢; omega
+  · have h' : ((rank : Int) - 1) = ((rank - 1 : Nat) : Int) := by omega
+    simp [h, hr] at hlen ⊢; omega
+  · simp [h, hr] at hlen ⊢; omega
+  · have h' : ((rank : Int) - 1) = ((rank - 1 : Nat) : Int) := by omega
+    simp [h, hr, h', repeat_one] at hlen ⊢; omega
+
+theorem slice_range {β : Type} (f : Nat → β) (m k n : Nat) (h : m + k ≤ n) :
+    Gen.Py.slice ((List.range n).map f) (m : Int) ((m + k : Nat) : Int) = (List.range k).map (fun j => f (m + j)) := by
+  unfold Gen.Py.slice Gen.Py.bound
+  have h1 : (0 : Int) ≤ (m : Int) := by omega
+  have h2 : (0 : Int) ≤ ((m + k : Nat) : Int) := by omega
+  simp only [h1, h2, if_true, Int.toNat_natCast, List.length_map, List.length_range]
+  apply List.ext_getElem
+  · simp; omega
+  · intro i hi1 hi2
+    simp
+    rw [Nat.min_eq_left (by omega)]
+
+/-- the model's slot list is the code's result on the list of positions `0 .. n-1` -/
+theorem precondsForGrad_bridge (pt : Shapes.PType) (rank blockIx n : Nat)
+    (hn : (blockIx + 1) * Shapes.numPreconditioned pt rank ≤ n) :
+    Gen.precondsForGrad ((List.range n).map fun (j : Nat) => some (j : Int)) (ptypeCode pt) (rank : Int)
+        ((blockIx * Shapes.numPreconditioned pt rank : Nat) : Int) (((blockIx + 1) * Shapes.numPreconditioned pt rank : Nat) : Int) =
+      some ((Shapes.precondsForGrad pt rank blockIx).map (Option.map fun (j : Nat) => (j : Int))) := by
+  have hk : (blockIx + 1) * Shapes.numPreconditioned pt rank =
+      blockIx * Shapes.numPreconditioned pt rank + Shapes.numPreconditioned pt rank := by
+    rw [Nat.add_mul, Nat.one_mul]
+  rw [hk] at hn ⊢
+  have hs := slice_range (fun (j : Nat) => some (j : Int)) (blockIx * Shapes.numPreconditioned pt rank)
+    (Shapes.numPreconditioned pt rank) n hn
+  rw [precondsForGrad_shape _ _ _ _ _ (by rw [hs]; simp), hs]
+  unfold padSlots Shapes.precondsForGrad
+  cases pt <;> simp <;> split <;> simp
+
+theorem any_gt (g : Nat) (shape : List Nat) :
+    List.any (List.map (fun (s : Int) => decide (s > (g : Int))) (ints shape)) id = shape.any (fun s => decide (g < s)) := by
+  induction shape with
+  | nil => rfl
+  | cons a l ih =>
+    simp only [ints, List.map_cons, List.any_cons] at ih ⊢
+    rw [ih]
+    congr 1
+    simp only [id]
+    rw [Bool.eq_iff_iff]; simp only [decide_eq_true_eq]; omega
+
+theorem dsSkip_bridge (rankLt dimGt : Nat) (shape : List Nat) :
+    Gen.dsSkipPreconditioning (rankLt : Int) (dimGt : Int) (ints shape) = Graft.dsSkip rankLt dimGt shape := by
+  unfold Gen.dsSkipPreconditioning Graft.dsSkip Gen.Py.len
+  rw [any_gt]
+  congr 1
+  rw [Bool.eq_iff_iff]; simp only [decide_eq_true_eq, ints, List.length_map, Int.ofNat_eq_natCast]; omega
+
+theorem tfMaskSkipped_bridge (rank1 : Bool) (anyDimGt : Nat) (shape : List Nat) :
+    Gen.tfMaskSkipped rank1 (anyDimGt : Int) (ints shape) = Graft.tfMaskSkipped rank1 anyDimGt shape := by
+  unfold Gen.tfMaskSkipped Graft.tfMaskSkipped Gen.Py.len
+  rw [any_gt]
+  have hl : decide ((Int.ofNat (ints shape).length) ≤ (1 : Int)) = decide (shape.length ≤ 1) := by
+    rw [Bool.eq_iff_iff]; simp only [decide_eq_true_eq, ints, List.length_map, Int.ofNat_eq_natCast]; omega
+  rw [hl]
+  cases rank1 <;> cases decide (shape.length ≤ 1) <;> cases shape.any (fun s => decide (anyDimGt < s)) <;> rfl
+
+theorem sm3ExpandedShape_eq (shape : List Nat) (i : Nat) (hi : i < shape.length) :
+    Gen.sm3ExpandedShape (ints shape) (i : Int) =
+      ints (List.replicate i 1 ++ [shape.getD i 0] ++ List.replicate (shape.length - i - 1) 1) := by
+  unfold Gen.sm3ExpandedShape Gen.Py.len
+  have h1 : (Int.ofNat (ints shape).length - (i : Int) - 1) = ((shape.length - i - 1 : Nat) : Int) := by
+    simp only [ints, List.length_map, Int.ofNat_eq_natCast]; omega
+  simp only [h1, repeat_one, py_get_ints]
+  simp [ints]
+
+theorem toPad_devices (n D : Nat) (hD : 0 < D) : Gen.toPad (n : Int) (D : Int) = ((Devices.toPad n D : Nat) : Int) := by
+  rw [toPad_eq_emod, Int.neg_emod]
+  unfold Devices.toPad
+  have hlt : n % D < D := Nat.mod_lt _ hD
+  have hcast : ((n % D : Nat) : Int) = (n : Int) % (D : Int) := Int.natCast_emod n D
+  split
+  · rename_i hdvd
+    have : n % D = 0 := Nat.mod_eq_zero_of_dvd (Int.natCast_dvd_natCast.mp hdvd)
+    simp [this]
+  · rename_i hdvd
+    have hne : n % D ≠ 0 := fun h => hdvd (Int.natCast_dvd_natCast.mpr (Nat.dvd_of_mod_eq_zero h))
+    rw [Nat.mod_eq_of_lt (by omega)]
+    omega
+
 
 end PrecondVerif.GenBridge
